@@ -79,6 +79,9 @@ def leaves(mode, tier):
     out.append(("BarGraph[2-series,hlines]", lambda: _bargraph([50], two=True)))
     out.append(("GraphVScale", lambda: urwid.GraphVScale([(10, "10"), (9, "9"), (5, "5")], 10)))
     out.append(("ListBox", lambda: urwid.ListBox(urwid.SimpleFocusListWalker([T("a"), urwid.Edit("", "b"), T("c\nd")]))))
+    out.append(("Text[short words]", lambda: T("ab cd ef gh ij")))  # wraps into more lines as soon as one column is taken away
+    # a row of given columns with dividers, the cursor in the last one: narrow sizes hide the columns left of the focus
+    out.append(("Columns[2,2,Edit3;d1,f2]", lambda: urwid.Columns([(2, T("l")), (2, T("m")), (3, urwid.Edit("", "x"))], 1, focus_column=2)))
     out.append(("ListBox[empty]", lambda: urwid.ListBox(urwid.SimpleFocusListWalker([]))))
     out.append(("Pile[empty]", lambda: urwid.Pile([])))
     out.append(("Columns[empty]", lambda: urwid.Columns([])))
@@ -89,6 +92,11 @@ def leaves(mode, tier):
 def _via_contents(cont, items):
     cont.contents[:] = [(w, cont.options(*o) if o[1] is not None else cont.options(o[0])) for w, o in items]
     return cont
+
+
+def _scrolled_to_end(s):
+    s.set_scrollpos(-1)
+    return s
 
 
 def _quiet(fn):
@@ -209,6 +217,7 @@ def constructors(tier):
     add("ListBox[Text,c,Text]", F, lambda c: urwid.ListBox(urwid.SimpleFocusListWalker([T("y"), c, T("z\nz")])))
     add("Scrollable", FX, lambda c: urwid.Scrollable(c))
     add("ScrollBar(Scrollable)", FX, lambda c: urwid.ScrollBar(urwid.Scrollable(c)))
+    add("ScrollBar(Scrollable)[end]", FX, lambda c: urwid.ScrollBar(_scrolled_to_end(urwid.Scrollable(c))))
     add("ScrollBar(Scrollable)[left,w2]", FX, lambda c: urwid.ScrollBar(urwid.Scrollable(c), side="left", width=2))
     return cs
 
